@@ -214,7 +214,7 @@ func runC14(r *vk.Run) {
 	}
 
 	// every fault position x every shape
-	r.Phase("faults", r.N(2, 40), func(c *vk.Case) {
+	r.Phase("faults", r.N(2, 96), func(c *vk.Case) {
 		n := 2 + c.Idx%2
 		inv := c14Inventory(c.Rng, n, r.N(3, 5))
 		shapes := c14Shapes(n)
@@ -250,7 +250,7 @@ func runC14(r *vk.Run) {
 	})
 
 	// open error x completion orders
-	r.Phase("openorders", r.N(2, 20), func(c *vk.Case) {
+	r.Phase("openorders", r.N(2, 48), func(c *vk.Case) {
 		for n := 2; n <= 4; n++ {
 			inv := c14Inventory(c.Rng, n, 3)
 			for _, sh := range c14Shapes(n) {
@@ -271,7 +271,7 @@ func runC14(r *vk.Run) {
 	})
 
 	// invalid stages / unsupported constructs: must fail, must not leak
-	r.Phase("invalid", r.N(3, 30), func(c *vk.Case) {
+	r.Phase("invalid", r.N(3, 300), func(c *vk.Case) {
 		inv := c14Inventory(c.Rng, 2+c.Idx%2, 3)
 		for _, sh := range c14Invalid {
 			fd := newFakeDocker(inv)
@@ -306,7 +306,7 @@ func runC14(r *vk.Run) {
 		{Name: "mem-setop", Query: `count_over_time({app="a"}[3s]) unless count_over_time({app="b"}[5s])`, Metric: true},
 		{Name: "mem-binop-badright", Query: `count_over_time({app="a"}[3s]) + count_over_time({app="a"} | pattern "<a><b>" [5s])`, Metric: true},
 	}
-	r.Phase("memfault", r.N(2, 20), func(c *vk.Case) {
+	r.Phase("memfault", r.N(2, 64), func(c *vk.Case) {
 		var recs []Rec
 		nrec := 6 + c.Idx%3
 		for j := 0; j < nrec; j++ {
